@@ -472,7 +472,9 @@ func runC10(c *Ctx) {
 					site = readSite(file, src)
 					c.Out.Count("site_"+site, 1)
 					c.Out.SetAdd("fault_sites", site)
-					c.Out.Distinct(id, true)
+					// non-trivial: the fault lands where rows are at stake (a seek, a page header, a
+					// page body); faults inside the footer can only end in a constructor error
+					c.Out.Distinct(id, site != "footer" && site != "footer_length" && site != "leading_magic")
 					bad := func(kind, detail string) {
 						c.Out.Violate(Violation{Prop: "C10", Key: fmt.Sprintf("site=%s;kind=%s", site, kind), Case: id, Shape: f.Shape.Name,
 							Detail: fmt.Sprintf("file %s (%d bytes): source call #%d of %d fails (%s, at offset %d, seek=%v, mode %s): %s", f.ID, len(file), k, n, site, src.FailOff, src.FailedSeek, mode, detail)})
@@ -663,7 +665,13 @@ func checkPrefix(c *Ctx, f *ioFile, pf *pqfile.File, file []byte, cut int, id st
 	c.Out.Count("cases", 1)
 	cls := cutClass(pf, file, cut)
 	c.Out.Count("cut_"+cls, 1)
-	c.Out.Distinct(id, cls != "data_area")
+	// non-trivial: the trailer check alone cannot refuse the prefix (it ends in PAR1), or the cut
+	// lies in the footer/trailer or exactly at a page or row-group boundary
+	endsInMagic := cut >= 4 && string(file[cut-4:cut]) == "PAR1"
+	if endsInMagic {
+		c.Out.Count("prefixes_ending_in_magic", 1)
+	}
+	c.Out.Distinct(id, endsInMagic || cls == "footer" || cls == "footer_length" || cls == "trailer_magic" || cls == "page_boundary" || cls == "between_row_groups")
 	res := ReadAll(f.Shape, NewSource(file[:cut]), len(f.Recs)+5)
 	bad := func(kind, detail string) {
 		c.Out.Violate(Violation{Prop: "C11", Key: fmt.Sprintf("cut=%s;kind=%s", cls, kind), Case: id, Shape: f.Shape.Name,
